@@ -183,7 +183,7 @@ InstQuickDeep    == [maxlen |-> 3, minqs |-> {20}, qn |-> <<"q1", "q2">>, rg |->
 InstThoroughWideA == [maxlen |-> 2, minqs |-> {20, 30}, qn |-> <<"q1", "q2">>, rg |-> <<"a1", "a2", "b1">>, fm |-> FMWide, cv |-> SubSeq(CVWide, 1, 5)]
 InstThoroughWideB == [maxlen |-> 2, minqs |-> {20, 30}, qn |-> <<"q1", "q2">>, rg |-> <<"a1", "a2", "b1">>, fm |-> SubSeq(FMThorough, 7, 14), cv |-> SubSeq(CVWide, 6, 10)]
 InstThoroughDeep == [maxlen |-> 3, minqs |-> {20, 30}, qn |-> <<"q1", "q2">>, rg |-> <<"a1", "a2", "b1">>, fm |-> FMNarrow,
-                     cv |-> SubSeq(CVNarrow, 1, 4)]
+                     cv |-> << CV(<<"A", "C">>, OK2, TRUE), CV(<<"C", None>>, OK2, TRUE), CV(<<"N", "A">>, <<TRUE, FALSE>>, TRUE) >>]
 InstTiny         == [maxlen |-> 2, minqs |-> {20, 30}, qn |-> <<"q1">>, rg |-> <<"a1", "b1">>, fm |-> FMNarrow, cv |-> CVNarrow]
 
 Ix == (1..Len(Inst.qn)) \X (1..Len(Inst.rg)) \X (1..Len(Inst.fm)) \X (1..Len(Inst.cv))
